@@ -13,15 +13,18 @@
    converted with _dispatch_timespec_to_nano; `now` is a parameter here.
    Constants that are powers of two in the C headers scale with W: 2^62 -> 2^(W-2),
    2^63 -> 2^(W-1); NSEC_PER_SEC is the constant NPS.  The text is the same for W=8
-   (TLC, exhaustive) and W=64 (Apalache, TimeApa.tla).
+   (TLC, exhaustive) and W=64 (Apalache, cfg/Time_apa_*.cfg).
 
    Where the pinned code deviates from the property, the code's behaviour is kept as the
    default and the repaired behaviour is selected by the name of the repair being in the
-   set F (CONSTANT Fixed at top level):
+   set F (CONSTANT Fixed at top level; {"none"} = the pinned code, the cfg files cannot
+   type an empty set for Apalache):
      "encode_boundary"  Encode rejects value >= 2^(W-2)-1 although Decode accepts it
      "wall_underflow"   dispatch_time, wall clock, delta<0: a sum of exactly 1 is encoded
                         as -1 == DISPATCH_TIME_FOREVER
      "walltime_range"   dispatch_walltime does tv_sec*NPS + tv_nsec + delta unchecked
+   (the repairs are /verif/patches/C12-fix-*.diff; the Fixed branches transcribe them).
+   Mut selects a deliberately wrong variant (non-vacuity of the laws).
 
    PART 2 is the REFERENCE: what property C12 says, written without reusing part 1.
    TimeMC.tla states the laws and the state space in which TLC (W=8, exhaustive) and
@@ -82,7 +85,7 @@ Decode(t, now) ==
 
 \* _dispatch_clock_and_value_to_time
 EncodeF(F, clock, value) ==
-  IF (IF "encode_boundary" \in F THEN value > MAXV ELSE value >= MAXV)
+  IF Mut # "no_range_check" /\ (IF "encode_boundary" \in F THEN value > MAXV ELSE value >= MAXV)
   THEN FOREVER
   ELSE IF clock = "wall" THEN (IF Mut = "wall_as_mono" THEN value + H ELSE U(0 - value))
        ELSE IF clock = "up" THEN value
@@ -108,15 +111,19 @@ DispatchTimeF(F, inval, delta, now) ==
                       ELSE d.value IN
          IF delta >= 0
          THEN LET v1 == U(value + U(delta)) IN
-              IF Mut # "no_overflow_check" /\ S(v1) <= 0 THEN FOREVER   \* overflow
+              IF S(v1) <= 0 THEN FOREVER                  \* overflow
               ELSE EncodeF(F, d.clock, v1)
          ELSE LET v1 == U(value - U(0 - delta)) IN        \* offset = (uint64_t)-delta
               IF S(v1) < 1
               THEN (IF Mut = "underflow_forever" THEN FOREVER ELSE EncodeF(F, d.clock, 1))
               ELSE EncodeF(F, d.clock, v1)
 
-\* _dispatch_timespec_to_nano: (uint64_t)tv_sec * NSEC_PER_SEC + (uint64_t)tv_nsec
-TimespecToNano(sec, nsec) == U(U(sec) * NPS + U(nsec))
+\* _dispatch_timespec_to_nano: (uint64_t)tv_sec * NSEC_PER_SEC + (uint64_t)tv_nsec, i.e.
+\* U(U(sec) * NPS + U(nsec)); reduction mod 2^W commutes with + and *, so the casts of the
+\* operands can be dropped (TLC checks the equality in HelpersExact; one reduction instead
+\* of three is what the SMT solver can cope with)
+TimespecToNanoC(sec, nsec) == U(U(sec) * NPS + U(nsec))
+TimespecToNano(sec, nsec) == U(sec * NPS + nsec)
 
 \* C division and remainder of a signed value by the positive constant NPS (truncation)
 CDiv(a) == IF a >= 0 THEN a \div NPS ELSE 0 - ((0 - a) \div NPS)
@@ -260,9 +267,9 @@ NowSet == { [up |-> 1, mono |-> 1, wall |-> 3],
             [up |-> Q \div 2 + 3, mono |-> Q \div 4 + 1, wall |-> Q \div 2 - 5],
             [up |-> 5, mono |-> Q - 3, wall |-> 7],
             [up |-> MAXV, mono |-> MAXV - 1, wall |-> MAXV] }
-TwoNows == {[up |-> 1, mono |-> 1, wall |-> 3], [up |-> 5, mono |-> Q - 3, wall |-> 7]}
+OneNow == {[up |-> 1, mono |-> 1, wall |-> 3]}   \* the strictest: hardly anything has elapsed
 
 \* tv_nsec values explored by TLC: every normalised one and denormalised landmarks
 NsecSet == (0 .. NPS - 1) \cup {0 - 1, 0 - NPS, NPS, NPS + 1, SMAX, SMIN, Q - 1, Q, Q + 1}
-NsecSetQuick == {0, 1, NPS - 1, 0 - 1, NPS, SMAX, SMIN, Q}
+NsecSetQuick == {0, NPS - 1, 0 - 1, NPS, SMIN}
 =============================================================================
